@@ -155,7 +155,7 @@ def cases(tier, seed):
         for i in range(0, len(ex3), 400):
             out.append({"family": "programs", "lo": i, "hi": min(i + 400, len(ex3)), "depth": 3, "ops": ["-", "/", "<", "=="]})
     out.append({"family": "associativity"})
-    for nparam in range(0, 5):
+    for nparam in [0, 1, 2, 3, 4, "defaults-1", "defaults-2", "defaults-3"]:
         out.append({"family": "curry", "nparam": nparam})
     for name in ("gaussian_filter", "shift", "dilation", "erosion", "closing", "opening", "gaussian_smooth", "soft_otsu", "from_gaussian", "lowpass_filter"):
         for lam in (0.5, 2.0, 3.7):
@@ -362,6 +362,22 @@ def _curry(case):
         conv = pipe.converter_function(lambda img, scale, k: img * scale + k)(7.0)
         refp = lambda s: a0 * s + 2.0  # noqa
         refc = lambda im, s: im * s + 7.0  # noqa
+    elif n == "defaults-1":
+        # user functions whose scale (and image) parameters have default values still receive the pipeline's scale
+        prov = pipe.provider_function(lambda scale=2.0: a0 * scale)()
+        conv = pipe.converter_function(lambda img, scale=2.0: img * scale)()
+        refp = lambda s: a0 * s  # noqa
+        refc = lambda im, s: im * s  # noqa
+    elif n == "defaults-2":
+        prov = pipe.provider_function(lambda scale=2.0, k=3.0: a0 * scale + k)(k=4.0)
+        conv = pipe.converter_function(lambda img=None, scale=2.0, k=1.0: img * scale + k)(k=7.0)
+        refp = lambda s: a0 * s + 4.0  # noqa
+        refc = lambda im, s: im * s + 7.0  # noqa
+    elif n == "defaults-3":
+        prov = pipe.provider_function(lambda scale, k=3.0: a0 * scale + k)()
+        conv = pipe.converter_function(lambda img, scale, k=1.0: img * scale + k)()
+        refp = lambda s: a0 * s + 3.0  # noqa
+        refc = lambda im, s: im * s + 1.0  # noqa
     else:
         prov = pipe.provider_function(lambda scale, k, m, *, q=0.0: a0 * scale + k * m + q)(4.0, 0.5, q=1.5)
         conv = pipe.converter_function(lambda img, scale, k, *, q=2.0: img * scale + k - q)(7.0, q=3.0)
